@@ -77,7 +77,7 @@ func verifC14Accept(followUp bool) {
 	}
 	// the misbehaving peer
 	p1 := &vfs.Peer{AbortErr: vfs.RemoteAbort{}}
-	kind := vf.Int("peer-kind", 0, 4)
+	kind := vf.Int("peer-kind", 0, 5)
 	switch kind {
 	case 0: // arbitrary ALPN entries (TLS cannot carry an empty name)
 		a, b := vf.String("alpn", 40), vf.String("alpn", 40)
@@ -90,6 +90,10 @@ func verifC14Accept(followUp bool) {
 		p1.NotTLS = true
 	case 3: // a well-formed ClientHello that carries no ALPN extension at all
 		p1.Protos = nil
+	case 5: // a well-formed authentication request by an unregistered key that names a node ID nobody has
+		cnonce := []byte("a-fresh-connection-nonce-32-byte")
+		areq, _ := proto.Marshal(&types.GenerateServerCertificatesRequest{CertificatePublicKeyPkix: vf.Pkix(3), Nonce: cnonce, NonceSignature: vf.SigBy(3, cnonce), NodeId: "no-such-node"})
+		p1.Protos, _ = nodetls.BreakIntoNextProtos(nodeenrollment.AuthenticateNodeNextProtoV1Prefix, base64.RawStdEncoding.EncodeToString(areq))
 	default: // an unregistered node's well-formed fetch, aborted with a fatal alert once the server has answered (2),
 		// or completed and followed by a connection reset, so that the server's own Close fails (4)
 		info := &types.FetchNodeCredentialsInfo{CertificatePublicKeyPkix: vf.Pkix(3), CertificatePublicKeyType: types.KEYTYPE_ED25519,
@@ -124,7 +128,12 @@ func verifC14Accept(followUp bool) {
 		}
 		baseCfg = &tls.Config{NextProtos: []string{"app"}, Certificates: []tls.Certificate{{Certificate: [][]byte{cur.CertificateDer}, PrivateKey: appKey}}}
 	}
-	l, err := NewInterceptingListener(&InterceptingListenerConfiguration{Context: ctx, Storage: st, BaseListener: base, BaseTlsConfiguration: baseCfg})
+	// the server's storage may or may not support lookup by node ID (and then reports an unknown ID either way)
+	var storage nodeenrollment.Storage = st
+	if vf.Bool("storage-supports-node-id-lookup") {
+		storage = &vfs.NodeIdStorage{Storage: st, EmptyAsSet: vf.Bool("unknown-node-id-reported-as-empty-set")}
+	}
+	l, err := NewInterceptingListener(&InterceptingListenerConfiguration{Context: ctx, Storage: storage, BaseListener: base, BaseTlsConfiguration: baseCfg})
 	vf.Assert("listener-built", err == nil)
 
 	c1, e1 := l.Accept()
@@ -159,7 +168,13 @@ func VerifC14ArbitraryAlpnReal() {
 	ctx := context.Background()
 	st := &vfs.Storage{}
 	vfs.StoreRoots(ctx, st, vf.Now())
-	l, err := NewInterceptingListener(&InterceptingListenerConfiguration{Context: ctx, Storage: st, BaseListener: &vfs.Script{}})
+	// either kind of storage: with the optional lookup by node ID (whatever node ID decodes from the peer's bytes is
+	// then looked up, and is unknown) or without it
+	var storage nodeenrollment.Storage = st
+	if vf.Bool("storage-supports-node-id-lookup") {
+		storage = &vfs.NodeIdStorage{Storage: st, EmptyAsSet: vf.Bool("unknown-node-id-reported-as-empty-set")}
+	}
+	l, err := NewInterceptingListener(&InterceptingListenerConfiguration{Context: ctx, Storage: storage, BaseListener: &vfs.Script{}})
 	vf.Assert("listener-built", err == nil)
 	var ci ClientInfo
 	a, b := vf.String("p", 48), vf.String("p", 48)
